@@ -114,7 +114,7 @@ func cmdCheck(args []string) int {
 		fmt.Fprintln(os.Stderr, "spec error:", err)
 		return reportBuildFailure(prop, tier, seed, t0, "contract files do not parse: "+err.Error())
 	}
-	timeout := 20.0 // quick tier: 20 s per obligation (the slowest discharged obligation needs about 9 s on this machine)
+	timeout := 30.0 // quick tier: 30 s per obligation (the slowest discharged obligations need 6-9 s on an idle machine, up to 20 s when another run competes for the cores)
 	if tier == "thorough" {
 		timeout = 60
 	}
